@@ -79,7 +79,7 @@ def gen_plan(rng, tier, index):
         opts['pat_desc'] = 'pos'
     opts['use_correction'] = rng.chance(0.5) and opts['n_cv'] > 1
     kinds = rng.subset(RANDINT_FAULTS + SHUFFLE_FAULTS, 0.3, 1.0)
-    return {'routine': routine, 'spec': spec, 'method': method, 'models': models, 'opts': opts, 'bare_model': rng.chance(0.5),
+    return {'routine': routine, 'spec': spec, 'method': method, 'models': models, 'opts': opts, 'bare_model': rng.chance(0.5), 'warm_eval': rng.chance(0.35),
             'faults': {'rate': rng.pick([0.0, 0.25, 0.5, 0.5]), 'kinds': kinds, 'k_targets': [2, 3, 4, 5, 6]},
             'meta6': rng.chance(0.5), 'meta7': rng.chance(0.25), 'meta8': rng.chance(0.005)}
 
@@ -211,6 +211,16 @@ class SpyFitter:
                            pattern_descriptor=pattern_descriptor, sigma_k=sigma_k)
         ent['theta'] = theta
         return theta
+
+
+def _replica(rdms):
+    """an equal RDMs object built from scratch: reference calls of trusted primitives must not see whatever earlier
+    calls may have left on the object the routine worked on"""
+    from copy import deepcopy
+    from rsatoolbox.rdm import RDMs
+    return RDMs(np.array(rdms.dissimilarities, copy=True), dissimilarity_measure=rdms.dissimilarity_measure,
+                descriptors=deepcopy(rdms.descriptors), rdm_descriptors=deepcopy(rdms.rdm_descriptors),
+                pattern_descriptors=deepcopy(rdms.pattern_descriptors))
 
 
 def _marg(plan, models):
@@ -436,6 +446,17 @@ def run_routine(plan, ctx, script=None, strict=False, N_override=None, quiet_ora
             ent['raw_test_idx'] = [t[1] if not isinstance(t[1], list) else list(t[1]) for t in res[1]]
         except Exception:
             pass
+    if plan.get('warm_eval'):
+        # the same data object was evaluated before with other comparison methods (whatever those calls leave on the
+        # object or in the library must not shape this evaluation, e.g. a remembered pooled RDM)
+        from rsatoolbox.model import ModelFixed
+        wm = ModelFixed('warm', gen.build_model_rdms(plan['spec'], 1, salt='warm'))
+        for other in ('corr', 'cosine', 'spearman'):
+            if other != method:
+                try:
+                    evm.eval_fixed(wm, data, method=other)
+                except Exception:
+                    pass
     with seam, spies:
         real = {}
         for name, fn in (('bootstrap_sample', bsm.bootstrap_sample), ('bootstrap_sample_rdm', bsm.bootstrap_sample_rdm),
@@ -593,7 +614,7 @@ def oracle(ctx, plan, obs):
                                   f'eval_fixed: model {ref.name}, RDM {k}: stored {ev[0, j, k]!r}, direct comparison gives {exp!r}')
                     return
                 ctx.probe('fixed_scores_reproduced')
-        nc = real['boot_noise_ceiling'](data, method=method, rdm_descriptor='index')
+        nc = real['boot_noise_ceiling'](_replica(data), method=method, rdm_descriptor='index')
         if not _close(res.noise_ceiling, nc):
             ctx.violation('eval_ref.clause3', 'eval_fixed:ceiling', f'eval_fixed: noise ceiling {np.asarray(res.noise_ceiling).tolist()} != ceiling of the data {list(nc)}')
         if res.dof != data.n_rdm - 1:
@@ -614,7 +635,7 @@ def oracle(ctx, plan, obs):
         if sets[2] is not None and obs.cv_nc:
             test_adv = [[t[0], adv] for t, adv in zip(sets[1], obs.adv_test)]
             try:
-                nc = real['cv_noise_ceiling'](data, sets[2], test_adv, method=method, pattern_descriptor=obs.cv_pdesc)
+                nc = real['cv_noise_ceiling'](_replica(data), sets[2], test_adv, method=method, pattern_descriptor=obs.cv_pdesc)
             except Exception:
                 nc = None
             if nc is not None and not _close(res.noise_ceiling, nc):
@@ -628,7 +649,7 @@ def oracle(ctx, plan, obs):
                 for tr, te, adv in zip(sets[0], sets[1], obs.adv_test):
                     if _fold_small(tr, te):
                         continue
-                    exp.append(real['boot_noise_ceiling'](data.subsample_pattern(by=obs.cv_pdesc, value=adv), method=method))
+                    exp.append(real['boot_noise_ceiling'](_replica(data).subsample_pattern(by=obs.cv_pdesc, value=adv), method=method))
                 exp = np.array(exp).T
             except Exception:
                 exp = None
@@ -769,7 +790,7 @@ def oracle(ctx, plan, obs):
                     return
                 ctx.probe('resample_scores_reproduced')
             if o['boot_noise_ceil']:
-                exp_nc = real['boot_noise_ceiling'](sample, method=method, rdm_descriptor=rd)
+                exp_nc = real['boot_noise_ceiling'](_replica(sample), method=method, rdm_descriptor=rd)
                 if ncrow is None or not _close(ncrow, exp_nc):
                     ctx.violation('eval_ref.clause3', f'{routine}:ceiling',
                                   f'{routine}: resample {i}: stored ceilings {None if ncrow is None else ncrow.tolist()} != ceilings of that resample {list(exp_nc)}')
@@ -859,7 +880,7 @@ def oracle(ctx, plan, obs):
     n_un = usable_flags.count(False)
     # ---------- clause 3 when ceilings are not bootstrapped
     if routine in ('eval_bootstrap', 'eval_bootstrap_pattern', 'eval_bootstrap_rdm') and not o['boot_noise_ceil']:
-        exp_nc = real['boot_noise_ceiling'](data, method=method, rdm_descriptor=rd)
+        exp_nc = real['boot_noise_ceiling'](_replica(data), method=method, rdm_descriptor=rd)
         if not _close(ncl, exp_nc):
             ctx.violation('eval_ref.clause3', f'{routine}:ceiling-full', f'{routine}: ceilings {ncl.tolist()} != ceilings of the full data {list(exp_nc)}')
     # ---------- clause 4: dof
@@ -911,8 +932,8 @@ def _recompute_cv_nc(real, plan, obs, folded, s_ent, method, pdn, rd):
             crossed = obs.k_rdm > 1 or obs.k_pattern > 1
         if crossed:
             test_adv = [[t[0], adv] for t, adv in zip(s_ent['result'][1], s_ent['raw_test_idx'])]
-            return real['cv_noise_ceiling'](folded, s_ent['result'][2], test_adv, method=method, pattern_descriptor=pdn)
-        return real['boot_noise_ceiling'](folded, method=method, rdm_descriptor=rd)
+            return real['cv_noise_ceiling'](_replica(folded), s_ent['result'][2], test_adv, method=method, pattern_descriptor=pdn)
+        return real['boot_noise_ceiling'](_replica(folded), method=method, rdm_descriptor=rd)
     except Exception:
         return None
 
